@@ -1,7 +1,7 @@
 """C36  A forked process never uses its parent's database connection."""
 import ast
 from ..loader import dotted, walk_no_nested, norm, head, calls_in
-from ..q import nodes_calling
+from ..q import nodes_calling, assign_pairs
 from ..typestate import Machine
 
 EXPLANATION = """
@@ -26,42 +26,77 @@ def run(ctx):
     f = repo.fn(DP, 'Pool.connect'); g = cg.cfg(f); pool = f.recv
     pidvars = {dotted(s.targets[0]) for s in walk_no_nested(f.node) if isinstance(s, ast.Assign) and len(s.targets) == 1 and norm(s.value) == 'os.getpid()'}
     ctx.need(pidvars, 'C36: Pool.connect no longer reads os.getpid()')
-    # abstract state: con in {none, mine, foreign}; pidattr in {none, mine, foreign}; parked bool
+    # abstract state: con in {none, mine, foreign}; pidattr in {none, mine, foreign}; parked bool; plus one copy per local that snapshots
+    # pool.con / pool.pid (`con = pool.con`): the local keeps the value it was given even after the attribute is reset
+    snaps = {}
+    for s_ in walk_no_nested(f.node):
+        for t, v in assign_pairs(s_):
+            if isinstance(t, ast.Name) and v is not None and dotted(v) in (pool + '.con', pool + '.pid'): snaps[t.id] = dotted(v)[len(pool) + 1:]
+    SV = ['L:' + n_ for n_ in sorted(snaps)]
+    def val_of(e, env):
+        """abstract value of an expression naming the connection / the owner pid, else None"""
+        d = dotted(e)
+        if d == pool + '.con': return env['con']
+        if d == pool + '.pid': return env['pid']
+        if isinstance(e, ast.Name) and e.id in snaps: return env['L:' + e.id]
+        if d in pidvars or norm(e) == 'os.getpid()': return 'mine'
+        if isinstance(e, ast.Constant) and e.value is None: return 'none'
+        return None
     def effect(n, env):
         if n.kind != 'stmt': return None
         a = n.ast
         upd = {}
         if isinstance(a, ast.Assign):
-            tg = []
-            for t in a.targets: tg += [dotted(x) for x in (t.elts if isinstance(t, ast.Tuple) else [t])]
-            v = a.value
-            for t in tg:
+            for t_, v in assign_pairs(a):
+                t = dotted(t_)
                 if t == pool + '.con':
-                    if isinstance(v, ast.Constant) and v.value is None: upd['con'] = 'none'
+                    x = val_of(v, env) if v is not None else None
+                    if x in ('none', 'mine', 'foreign', 'unset') and not (v is not None and (dotted(v) in pidvars or norm(v) == 'os.getpid()')): upd['con'] = x
                     else: return {'normal': [{'con': 'UNKNOWN'}]}
-                if t == pool + '.pid':
-                    if isinstance(v, ast.Constant) and v.value is None: upd['pid'] = 'none'
-                    elif dotted(v) in pidvars or norm(v) == 'os.getpid()': upd['pid'] = 'mine'
-                    else: upd['pid'] = 'UNKNOWN'
+                elif t == pool + '.pid':
+                    x = val_of(v, env) if v is not None else None
+                    upd['pid'] = x if x is not None else 'UNKNOWN'
+                elif isinstance(t_, ast.Name) and t_.id in snaps:
+                    x = val_of(v, env) if v is not None else None
+                    upd['L:' + t_.id] = x if x is not None else 'UNKNOWN'
             if upd: return {'normal': [upd]}
         for c in n.calls():
             if dotted(c.func) == pool + '._connect':
                 return {'normal': [{'con': 'mine'}], 'exc': [{}]}        # success: a fresh connection of this process; failure: nothing changes
             if dotted(c.func) == pool + '.forked_connections.append':
-                return {'normal': [{'parked': env['con'] if env['con'] in ('foreign', 'mine') else env['parked']}]}
-            if isinstance(c.func, ast.Attribute) and c.func.attr == 'close' and (dotted(c.func.value) or '').startswith(pool):
-                return {'normal': [{'closed': env['con']}]}
+                # what is kept referenced is the connection handle: the first connection-valued element
+                conv = [val_of(x, env) for a_ in c.args for x in ([a_] + (list(a_.elts) if isinstance(a_, (ast.Tuple, ast.List)) else []))
+                        if dotted(x) == pool + '.con' or (isinstance(x, ast.Name) and snaps.get(x.id) == 'con')]
+                if conv and conv[0] in ('foreign', 'mine'): return {'normal': [{'parked': conv[0]}]}
+                return None
+            if isinstance(c.func, ast.Attribute) and c.func.attr == 'close':
+                x = c.func.value
+                if dotted(x) == pool + '.con' or (isinstance(x, ast.Name) and snaps.get(x.id) == 'con'): return {'normal': [{'closed': val_of(x, env)}]}
+                if (dotted(x) or '').startswith(pool): return {'normal': [{'closed': env['con']}]}
         return None
     def atom(t, env):
-        for pv in pidvars:
-            if t in ('%s.pid != %s' % (pool, pv), '%s != %s.pid' % (pv, pool)): return env['pid'] != 'mine'
-            if t in ('%s.pid == %s' % (pool, pv), '%s == %s.pid' % (pv, pool)): return env['pid'] == 'mine'
-        if t == pool + '.con is not None': return env['con'] != 'none'
-        if t == pool + '.con is None': return env['con'] == 'none'
+        try: e = ast.parse(t, mode='eval').body
+        except SyntaxError: return None
+        if isinstance(e, ast.Compare) and len(e.ops) == 1:
+            l, r = val_of(e.left, env), val_of(e.comparators[0], env)
+            op = e.ops[0]
+            if l is None or r is None or 'UNKNOWN' in (l, r): return None
+            if isinstance(op, (ast.Is, ast.IsNot)) and 'none' in (l, r): return (l == r) == isinstance(op, ast.Is)
+            if isinstance(op, (ast.Eq, ast.NotEq)):
+                # pids: equal iff both are this process's pid; a foreign pid differs from ours; None differs from any pid
+                if l == r == 'foreign': return None
+                return (l == r) == isinstance(op, ast.Eq)
+            return None
+        v = val_of(e, env)
+        if v in ('none', 'mine', 'foreign') and (dotted(e) == pool + '.con' or (isinstance(e, ast.Name) and snaps.get(e.id) == 'con')): return v != 'none'   # truthiness of a connection handle
         return None
-    m = Machine(g, ['con', 'pid', 'parked', 'closed'], effect, atom)
-    inits = [{'con': 'none', 'pid': 'none', 'parked': 'no', 'closed': 'no'}, {'con': 'mine', 'pid': 'mine', 'parked': 'no', 'closed': 'no'},
-             {'con': 'foreign', 'pid': 'foreign', 'parked': 'no', 'closed': 'no'}]
+    VARS = ['con', 'pid', 'parked', 'closed'] + SV
+    def mk(con, pid): 
+        d_ = {'con': con, 'pid': pid, 'parked': 'no', 'closed': 'no'}
+        d_.update({v_: 'unset' for v_ in SV})
+        return d_
+    m = Machine(g, VARS, effect, atom)
+    inits = [mk('none', 'none'), mk('mine', 'mine'), mk('foreign', 'foreign')]
     IN = m.run(inits)
     for ex, nm in ((g.exit, 'normal return'), (g.raise_, 'exception')):
         sts = m.states_at(IN, ex)
@@ -83,12 +118,12 @@ def run(ctx):
                '' if not bad else 'the inherited connection is closed in the child (%s): this terminates the parent\'s server session' % bad[0])
     sts = m.states_at(IN, g.exit)
     # foreign start => parked
-    m2 = Machine(g, ['con', 'pid', 'parked', 'closed'], effect, atom)
+    m2 = Machine(g, VARS, effect, atom)
     IN2 = m2.run([inits[2]])
     bad = [e for e in m2.states_at(IN2, g.exit) if e['parked'] != 'foreign']
     ctx.ob('C36-PARK.inherited-connection-is-parked', f, f.node, not bad, '' if not bad else 'an inherited connection is dropped without being kept in forked_connections (its finaliser closes the parent\'s socket)')
-    IN3 = Machine(g, ['con', 'pid', 'parked', 'closed'], effect, atom).run([inits[1]])
-    bad = [e for e in Machine(g, ['con', 'pid', 'parked', 'closed'], effect, atom).states_at(IN3, g.exit) if e['parked'] != 'no']
+    IN3 = Machine(g, VARS, effect, atom).run([inits[1]])
+    bad = [e for e in Machine(g, VARS, effect, atom).states_at(IN3, g.exit) if e['parked'] != 'no']
     ctx.ob('C36-PARK.own-connection-is-not-parked', f, f.node, not bad, '' if not bad else 'the process parks its own connection')
     # ---------------------------------------------------------------- SUB
     P = repo.cls(DP, 'Pool')
